@@ -16,7 +16,7 @@ pub fn index_cases(quick: bool) -> Vec<Case> {
         idx += 1;
     };
     let max_m = 3;
-    let reps = if quick { 5 } else { 100 };
+    let reps = if quick { 20 } else { 100 };
     for _rep in 0..reps {
         for ks in 1..=16usize {
             for ob in [4usize, 5, 6] {
@@ -54,7 +54,7 @@ pub fn group_cases(quick: bool) -> Vec<Case> {
         idx += 1;
     };
     let rpb = 4096 / 26; // 157
-    let reps = if quick { 6 } else { 120 };
+    let reps = if quick { 24 } else { 120 };
     for _ in 0..reps {
         for m in 1..=3usize {
             for d in [-1i64, 0, 1] {
